@@ -205,6 +205,48 @@ def timeLoop (F : TFlags) (P : Params) (specs : List TSpec) (startup : Int) (lat
     | some ⟨some t, _⟩ => t :: timeLoop F P specs startup lat n (t + lat n)
     | _ => []
 
+/-! ### the wait across a zone-offset change
+
+`timeLoop` above abstracts from how long the loops sleep.  The following model keeps real (elapsed) time `r` apart from the
+wall clock `dt_now()`: the wall clock shows `r + Z.offReal r` (naive local time of a zone with DST), asyncio sleeps for real
+seconds.  Both loops sleep `next_time_adj - now` first and then re-check the wall clock:
+* legacy `trigger_watch` (l.1154–1158): `actual_now = dt_now(); if actual_now < time_next: timeout = time_next - actual_now; continue`
+* new `TimeTriggerDecorator._cycle` (l.132–138): `timeout = (time_next_adj - dt_now()).total_seconds(); if timeout <= 1e-6: break;
+  sleep(timeout)` – it compares with `time_next_adj`, not with `time_next` (finding C06-F5). -/
+
+structure Zone where
+  /-- what the wall clock adds to the real time `r` (µs) at that moment -/
+  offReal : Int → Int
+
+def wallAt (Z : Zone) (r : Int) : Int := r + Z.offReal r
+
+/-- which instant the early-wake-up re-check compares the wall clock with -/
+structure WFlags where
+  /-- `time_next_adj` (new subsystem) instead of `time_next` (legacy) -/
+  recheckAdj : Bool
+deriving DecidableEq, Repr
+
+def WFlags.legacy : WFlags := ⟨false⟩
+def WFlags.new : WFlags := ⟨true⟩
+
+/-- the re-check loop after the first sleep: real time at which the function is run -/
+def waitFire (W : WFlags) (Z : Zone) (next adj : Int) : Nat → Int → Int
+  | 0, r => r
+  | n + 1, r =>
+    if wallAt Z r < (if W.recheckAdj then adj else next) then
+      waitFire W Z next adj n (r + ((if W.recheckAdj then adj else next) - wallAt Z r))
+    else r
+
+/-- the loops over real time: `(trigger_time, wall clock when the function runs, real time of the run)` -/
+def dstLoop (W : WFlags) (F : TFlags) (P : Params) (specs : List TSpec) (startup : Int) (Z : Zone) : Nat → Int → List (Int × Int × Int)
+  | 0, _ => []
+  | n + 1, r =>
+    match timerNext F P specs (wallAt Z r) startup with
+    | some ⟨some t, some adj⟩ =>
+      (t, wallAt Z (waitFire W Z t adj 4 (r + max 0 (adj - wallAt Z r))), waitFire W Z t adj 4 (r + max 0 (adj - wallAt Z r))) ::
+        dstLoop W F P specs startup Z n (waitFire W Z t adj 4 (r + max 0 (adj - wallAt Z r)))
+    | _ => []
+
 /-- one specification alone -/
 def timerNext1 (F : TFlags) (P : Params) (sp : TSpec) (now startup : Int) : Option (Option Int) :=
   (specStep F P now startup ⟨none, none⟩ sp).map (·.next)
